@@ -12,9 +12,9 @@ extern "C" {
 #define VP_MAXDIM 9
 #endif
 
-enum { L_MUL, L_T, L_EYE, L_TRI, L_DIAG, L_TRIL, L_TRIU, L_TALL, L_WIDE, L_SQUARE, L_INNER1, L_3DIFF, L_REALS, L_SIGNED_ZERO, L_TALL2, L_LARGE_DIM, L_WIDE_EXP, L_ALIASED };
+enum { L_MUL, L_T, L_EYE, L_TRI, L_DIAG, L_TRIL, L_TRIU, L_TALL, L_WIDE, L_SQUARE, L_INNER1, L_3DIFF, L_REALS, L_SIGNED_ZERO, L_TALL2, L_LARGE_DIM, L_WIDE_EXP, L_ALIASED, L_ARENA };
 static char const *const labels[] = {"product", "transpose", "eye", "tri_ones", "diag", "triL", "triU", "rows_gt_cols", "cols_gt_rows", "square",
-                                     "inner_dimension_1", "three_pairwise_different_dims", "real_valued_contents", "signed_zero_in_contents", "rows_ge_cols_plus_2", "dimension_ge_15_up_to_140", "wide_exponent_contents", "product_operands_share_storage", nullptr};
+                                     "inner_dimension_1", "three_pairwise_different_dims", "real_valued_contents", "signed_zero_in_contents", "rows_ge_cols_plus_2", "dimension_ge_15_up_to_140", "wide_exponent_contents", "product_operands_share_storage", "operands_and_result_adjacent_in_one_block", nullptr};
 static char const *const metrics[] = {"max_product_error_over_bound", nullptr};
 static uint8_t const dict[] = {0, 1, 2, 3, 8, 9};
 static vp_info const info = {"C09", "linalg", "", labels, metrics, 256, dict, sizeof(dict)};
@@ -162,12 +162,49 @@ static void run_case(Tape &t, Ctx &cx)
                 cx.log("  operands share storage\n");
                 cx.hash.add(77);
             }
+            // placement: separate heap blocks (red zones between them), or the three matrices carved back to back, in any order and
+            // without a gap, out of one workspace block - distinct objects that merely touch
+            R *zp = Z.p;
+            R *arena = nullptr;
+            size_t nx = size_t(X.r) * X.c, ny = size_t(Y.r) * Y.c, nz = size_t(m) * n;
+            size_t offx = 0, offy = 0;
+            uint8_t place = t.u8();
+            if (xp == X.p && yp == Y.p && place % 4 == 0)
+            {
+                arena = (R *)malloc(sizeof(R) * (nx + ny + nz));
+                static unsigned const perm[6][3] = {{0, 1, 2}, {0, 2, 1}, {1, 0, 2}, {1, 2, 0}, {2, 0, 1}, {2, 1, 0}};
+                unsigned const *pm = perm[(place / 4) % 6];
+                size_t off = 0, offz = 0;
+                for (unsigned q = 0; q < 3; ++q)
+                {
+                    if (pm[q] == 0) { offx = off; off += nx; }
+                    else if (pm[q] == 1) { offy = off; off += ny; }
+                    else { offz = off; off += nz; }
+                }
+                memcpy(arena + offx, X.p, sizeof(R) * nx);
+                memcpy(arena + offy, Y.p, sizeof(R) * ny);
+                for (size_t i = 0; i < nz; ++i) { arena[offz + i] = kPoison; }
+                xp = arena + offx;
+                yp = arena + offy;
+                zp = arena + offz;
+                cx.label(L_ARENA);
+                cx.log("  X, Y, Z carved out of one block in order %u%u%u\n", pm[0], pm[1], pm[2]);
+                cx.hash.add(100 + (place / 4) % 6);
+            }
+            struct FreeArena { R *p; ~FreeArena() { free(p); } } fa{arena};
             switch (op)
             {
-            case 0: a_real_mulmm(m, k, n, xp, yp, Z.p); break;
-            case 1: a_real_mulTm(k, m, n, xp, yp, Z.p); break;
-            case 2: a_real_mulmT(m, n, k, xp, yp, Z.p); break;
-            default: a_real_mulTT(m, k, n, xp, yp, Z.p); break;
+            case 0: a_real_mulmm(m, k, n, xp, yp, zp); break;
+            case 1: a_real_mulTm(k, m, n, xp, yp, zp); break;
+            case 2: a_real_mulmT(m, n, k, xp, yp, zp); break;
+            default: a_real_mulTT(m, k, n, xp, yp, zp); break;
+            }
+            if (arena)
+            {
+                // the operands are read-only
+                for (size_t i = 0; i < nx; ++i) { if (!biteq(arena[offx + i], X.p[i])) { cx.fail("mul:operand_modified", "product variant %d modified its first operand at element %zu", op, i); } }
+                for (size_t i = 0; i < ny; ++i) { if (!biteq(arena[offy + i], Y.p[i])) { cx.fail("mul:operand_modified", "product variant %d modified its second operand at element %zu", op, i); } }
+                memcpy(Z.p, zp, sizeof(R) * nz);
             }
             cx.label(L_MUL);
             if (k == 1) { cx.label(L_INNER1); }
